@@ -75,6 +75,11 @@ class Region:
         """min/max of two operands ordered by the assumptions -> that operand; casts between integer types dropped"""
         if not isinstance(e, tuple) or not e or depth > 12:
             return e
+        if e[0] == "field" and str(e[2]) == "0" and isinstance(e[1], tuple) and e[1] and e[1][0] == "down" and e[1][2] == "Some":
+            # payload of `a.checked_sub(b)` on the Some side is a - b
+            x = S.strip_refs(e[1][1])
+            if x[0] == "call" and x[1].endswith("::checked_sub") and len(x[2]) == 2:
+                return ("binop", "Sub", self.simplify(x[2][0], depth + 1), self.simplify(x[2][1], depth + 1))
         if e[0] == "call" and e[1].endswith(("cmp::min", "cmp::max", "Ord::min", "Ord::max")) and len(e[2]) == 2:
             a, b = self.simplify(e[2][0], depth + 1), self.simplify(e[2][1], depth + 1)
             le = self.decide_cmp("Le", a, b)
@@ -129,6 +134,18 @@ def feasible_paths(ctx, body, region, goals, limit=400):
         if t["k"] == "switch":
             d = resolve_on_path(body, sy, sy.operand(t["discr"]), path)
             d = region.simplify(d)
+            ds = S.strip_refs(d)
+            if ds[0] == "discr":
+                x = S.strip_refs(ds[1])
+                if x[0] == "call" and x[1].endswith("::checked_sub") and len(x[2]) == 2:
+                    # Option discriminant of a.checked_sub(b): Some exactly when a >= b
+                    r = region.decide_cmp("Ge", x[2][0], x[2][1])
+                    if r is not None:
+                        tg = [b for v, b in t["targets"] if v == (1 if r else 0)]
+                        if tg:
+                            return tg
+                        if isinstance(t.get("otherwise"), int):
+                            return [t["otherwise"]]
             bt = U.bool_switch_targets(t)
             if bt:
                 r = region.decide(d)
